@@ -92,19 +92,4 @@ func RepoTestSources() ([]Source, error) {
 
 // exitsFor lists the exits applicable under a chain (same rule as prop/c14: break/continue need an
 // enclosing loop in the same function).
-func exitsFor(chain []string) []c14.Exit {
-	loops := 0
-	for _, p := range chain {
-		switch p {
-		case "loop", "while", "until", "forin", "fornum":
-			loops++
-		case "call", "callc":
-			loops = 0
-		}
-	}
-	ex := []c14.Exit{{Kind: "none"}, {Kind: "return"}, {Kind: "throw_a"}, {Kind: "throw_b"}, {Kind: "defer"}}
-	for l := 0; l <= loops && loops > 0; l++ {
-		ex = append(ex, c14.Exit{Kind: "break", Level: l}, c14.Exit{Kind: "continue", Level: l})
-	}
-	return ex
-}
+func exitsFor(chain []string) []c14.Exit { return c14.ExitsFor(chain) }
